@@ -53,6 +53,18 @@ def _run(cmd, cwd, env, timeout, logfile):
             return -9
 
 
+def _keep(prop, path):
+    """keep the tail of a log under /verif/logs/<prop>/ (the scratch dir is removed after the check)"""
+    try:
+        d = os.path.join(VERIF, "logs", prop)
+        os.makedirs(d, exist_ok=True)
+        with open(path, errors="replace") as f:
+            lines = [l for l in f.readlines() if "Status: SUCCESS" not in l]
+        open(os.path.join(d, os.path.basename(path)), "w").writelines(lines[-400:])
+    except OSError:
+        pass
+
+
 def install_native_stubs(h, src):
     """returns (ok, detail)"""
     import registry
@@ -85,15 +97,26 @@ def replay(prop, h, fcs, src, target, logs, env):
     log1 = os.path.join(logs, f"playback-gen-{h['name']}.log")
     cmd = (f"cargo kani --lib -Z stubbing -Z concrete-playback --concrete-playback=print --exact --harness {h['fq']} "
            f"--target-dir {target}")
-    _run(cmd, src, env, 3600, log1)
-    txt = open(log1, errors="replace").read()
-    tests = []
-    for blk in re.findall(r"```\s*\n(.*?)\n```", txt, re.S):
-        m = re.search(r"fn (kani_concrete_playback_[A-Za-z0-9_]+)\(\)", blk)
-        if m and "#[test]" in blk and "Check for `cover`" not in blk:
-            tests.append((blk, m.group(1)))
+    def gen(extra_env):
+        e = dict(env)
+        e.update(extra_env)
+        _run(cmd, src, e, 3600, log1)
+        txt = open(log1, errors="replace").read()
+        found = []
+        for blk in re.findall(r"```\s*\n(.*?)\n```", txt, re.S):
+            m = re.search(r"fn (kani_concrete_playback_[A-Za-z0-9_]+)\(\)", blk)
+            if m and "#[test]" in blk:
+                found.append((blk, m.group(1), "Check for `cover`" in blk))
+        return found
+    # first without the reachability covers (VERIF_NOCOVER compiles them out): Kani then emits the test for the
+    # failing assertion; with covers present it sometimes emits only the cover's test
+    found = gen({"VERIF_NOCOVER": "1"})
+    if not [f for f in found if not f[2]]:
+        found = gen({})
+    tests = [(b, n) for b, n, is_cover in found if not is_cover] or [(b, n) for b, n, is_cover in found]
     if not tests:
         out["detail"] = "concrete playback produced no test"
+        _keep(prop, log1)
         return out
     mod = h["fq"][: -len(h["name"])]
     hfile = HARNESS_FILES.get(mod)
@@ -119,6 +142,9 @@ def replay(prop, h, fcs, src, target, logs, env):
         results[profile] = dict(tests_run=int(ran.group(1)) if ran else 0, test_failed=failed, matched_checks=hit,
                                 panic=(re.findall(r"panicked at [^\n]*\n[^\n]*", t) or [""])[0][:400])
     reproduced = results["dev"]["test_failed"] or results["release"]["test_failed"]
+    if not reproduced:
+        for profile in ("dev", "release"):
+            _keep(prop, os.path.join(logs, f"playback-run-{h['name']}-{profile}.log"))
     d = os.path.join(os.environ.get("VERIF_REPLAY_DIR") or os.path.join(VERIF, "replays"), prop)
     os.makedirs(d, exist_ok=True)
     path = os.path.join(d, h["name"] + ".rs")
